@@ -90,22 +90,22 @@ func (w *iw) Write(buf []byte) (int, error) {
 func actualWrittenSize(underlay, prefix int, lines [][]byte) int {
 	actual := 0
 	remain := underlay
-	for _, line := range lines {
-		if len(line) == 0 {
-			continue
+	for i, line := range lines {
+		// The prefix separates the elements of lines, so the first one
+		// has none in front of it.
+		if i > 0 {
+			remain -= prefix
 		}
-
-		addition := remain - prefix
-		if addition <= 0 {
+		if remain <= 0 {
 			return actual
 		}
 
-		if addition <= len(line) {
-			return actual + addition
+		if remain <= len(line) {
+			return actual + remain
 		}
 
 		actual += len(line)
-		remain -= prefix + len(line)
+		remain -= len(line)
 	}
 
 	return actual
